@@ -242,6 +242,68 @@ def frag_program(rng):
     return "\n".join(lines)
 
 
+def map_program(rng):
+    """maps as objects with a history: literals, index assignment of new and of existing keys (directly and through an
+    alias), and - before, between and after the writes - every way of observing a map the core grammar has (range with one
+    and with two variables, len, in, index): all observers must agree with the contents at that moment, however often the
+    map was observed before"""
+    n = [0]
+    lines = []
+    contents = {}            # variable -> dict (aliases share the dict)
+    keys = ["a", "b", "c", "d", "e", "k1", "k2", "zz"]
+
+    def new():
+        name = "m%d" % n[0]
+        n[0] += 1
+        ks = [k for k in keys if rng.chance(1, 3)]
+        d = {k: rng.below(50) for k in ks}
+        lines.append("%s := {%s}" % (name, ", ".join('"%s": %d' % (k, v) for k, v in d.items())))
+        contents[name] = d
+        return name
+
+    def observe(m):
+        c = rng.below(5)
+        if c == 0:
+            lines.append("for k, v := range %s { print(k, v) }" % m)
+        elif c == 1:
+            lines.append("for k := range %s { print(k) }" % m)
+        elif c == 2:
+            lines.append("print(len(%s))" % m)
+        elif c == 3:
+            lines.append('print("%s" in %s)' % (rng.choice(keys), m))
+        elif contents[m]:
+            lines.append('print(%s["%s"])' % (m, rng.choice(sorted(contents[m]))))
+
+    new()
+    for _ in range(4 + rng.below(8)):
+        m = rng.choice(sorted(contents))
+        c = rng.below(10)
+        if c < 4:
+            observe(m)
+        elif c < 7:
+            k = rng.choice(keys)                                  # a new key or an existing one
+            v = rng.below(100)
+            lines.append('%s["%s"] = %d' % (m, k, v))
+            contents[m][k] = v
+        elif c == 7 and len(contents) < 3:
+            new()
+        elif c == 8 and len(contents) < 4:
+            name = "m%d" % n[0]
+            n[0] += 1
+            lines.append("%s := %s" % (name, m))
+            contents[name] = contents[m]
+        else:
+            observe(m)
+            k = rng.choice(keys)
+            lines.append('%s["%s"] = %d' % (m, k, rng.below(100)))
+            contents[m][k] = 0
+            observe(m)
+    for m in sorted(contents):
+        lines.append("for k, v := range %s { print(k, v) }" % m)
+    lines.append("[" + ", ".join("len(%s)" % m for m in sorted(contents)) + "]")
+    return "\n".join(lines)
+
+
 def list_program(rng):
     """lists as values with identity: literals, + (always a NEW list), append / index assignment (in place, seen through
     every alias), aliases, slices (copies); every variable is printed at the end, so storage shared by mistake between
@@ -318,6 +380,9 @@ def run(res):
     for i in range(max(200, nprog // 8)):
         srcs.append(list_program(rng))
     stats["list identity programs"] = max(200, nprog // 8)
+    for i in range(max(200, nprog // 8)):
+        srcs.append(map_program(rng))
+    stats["map history programs"] = max(200, nprog // 8)
     corpus = []
     for f in ("harvest.hex", "semgen.hex", "edge.hex"):
         for line in open(os.path.join(C.VERIF, "corpus", "core", f)):
@@ -364,6 +429,12 @@ def run(res):
                 skipped[stage] += 1
                 continue
             if x == y:
+                agree[stage] += 1
+                continue
+            if stage == "vm" and x.startswith("ERR XPanic(") and y.startswith("ERR XPanic ") and \
+                    x.split(" TRACE", 1)[-1] == y.split(" TRACE", 1)[-1]:
+                # a Go panic recovered by the VM (frame stack exhausted, Go-nil operand): the implementation's line carries
+                # the panic text, the VM model only the class
                 agree[stage] += 1
                 continue
             rec = {"stage": stage, "source": src, "impl": x[:600], "model": y[:600]}
